@@ -442,6 +442,7 @@ func c03Sequences(r *vf.Run) {
 				if !r.Want(cid) {
 					continue
 				}
+				rng := r.RNG(cid) // per-configuration stream for the in-place edits below
 				spy := newSpy(updog.NewLRUCache(cp.size), true)
 				idx, err := ix.Open(path, mode, spy)
 				if err != nil {
